@@ -70,6 +70,10 @@ def mechanism(f, exp, got_default, got_noinfer, int_into_float=False):
     base = 'noinfer-agrees-with-cpython' if got_noinfer == exp else 'noinfer-differs-too'
     if ec == 'ok' and gc == 'ok':
         fd = first_diff_types(exp, got_default)
+        if fd and got_noinfer == exp and 'conditional-expression' in f['feat'] and (fd[1], fd[2]) in (('int', 'float'), ('bool', 'int')):
+            # `x if c else y` over locals that were inferred as C values has the C spanning type of its branches
+            # (long/double -> double, int object/bint -> int): the value of the other branch is converted
+            return 'conditional-expression-over-inferred-locals-converts-branch-value', {'types': '%s->%s' % (fd[1], fd[2])}
         if fd:
             i, tx, ty, same_repr = fd
             var = list(f['kinds'])[i] if i < len(f['kinds']) else '?'
